@@ -17,6 +17,14 @@ package c02
 //	                  (5 session shapes with different own/remote domains, c2s and s2s, proceed /
 //	                  forced / refused / header refused) sharing ONE StartTLS value
 //
+//	headerAddressProbe negotiator.go: trace, outcome and LocalAddr() of NewSession for every 'to'
+//	                  of an address universe x every kind of 'from' in the peer's stream header,
+//	                  in the clear-text header and in the header after the TLS switch, c2s and s2s
+//	infoCopyProbe     stream.Info.FromStartElement / jid unmarshalling: parsing a header into a
+//	                  shallow copy of a stream info, for every ordered pair of an address
+//	                  universe: what the copy holds and what the value it was copied from holds
+//	saslMaskProbe     sasl.go: the masks of xmpp.SASL(...) for every non-empty set of mechanisms
+//
 // The Lean side enumerates the same domains in the same order (Model/StartTLSProbe.lean).
 
 import (
@@ -30,7 +38,9 @@ import (
 	"strings"
 	"time"
 
+	"mellium.im/sasl"
 	"mellium.im/xmpp"
+	"mellium.im/xmpp/jid"
 	"mellium.im/xmpp/stream"
 
 	"verifharness/common"
@@ -362,6 +372,118 @@ func (c *ctx) probeServerName(sb *strings.Builder) {
 		"serverNameProbe", "List ((Bool × List SniSess) × List (Option Name))", rows, perr)
 }
 
+// ---- negotiator.go: the addresses in the peer's stream header ------------------------------------
+
+func leanAddr(a addr) string { return fmt.Sprintf("⟨%d, %d, %d⟩", a.loc, a.dom, a.res) }
+
+func (c *ctx) probeHeaderAddress(sb *strings.Builder) {
+	var rows, rows2 []string
+	var perr error
+	for _, s2s := range []bool{false, true} {
+		for _, inTLS := range []bool{false, true} {
+			for from := 0; from < len(hdrFromKinds); from++ {
+				// (a domain small enough for the kernel to compare in a second, and for a failed
+				// comparison to be explained: the whole universe runs in the differential corpus)
+				tos := []*addr{nil, {1, 0, 0}, {0, 0, 0}, {1, 1, 0}, {2, 0, 0}, {1, 0, 1}, {1, 4, 0}, {0, 1, 0}}
+				if from >= 2 {
+					tos = []*addr{nil}
+				}
+				for toCode, to := range tos {
+					sc := scenario{domain: 0, remote: 1}
+					if s2s {
+						sc.state0 = uint8(xmpp.S2S)
+					}
+					h1, h2 := hdrA(from, to), hdr(true)
+					if inTLS {
+						h1, h2 = h2, h1
+					}
+					sc.clear = [][]unit{{h1, list(it(0, true))}, {u('P')}}
+					sc.prot = []pu{{u: h2}, {u: list()}}
+					res := c.exec(sc, nil)
+					ev, err := leanEvents(res.clearEv, res.hello, res.protEv)
+					if err != nil {
+						perr = err
+					}
+					out, err := leanOutcome(res.outcome)
+					if err != nil {
+						perr = err
+					}
+					var la addr
+					if _, err := fmt.Sscanf(res.local, "T%d.%d.%d", &la.loc, &la.dom, &la.res); err != nil {
+						perr = fmt.Errorf("LocalAddr() after the call: %s", res.local)
+					}
+					if res.remoteCh != "" || res.callerCh != "" {
+						perr = fmt.Errorf("addresses changed: %s %s", res.remoteCh, res.callerCh)
+					}
+					rows = append(rows, fmt.Sprintf("((%s, %s, %d, %d), some (%s, %s))", leanBool(s2s), leanBool(inTLS), from, toCode, ev, out))
+					rows2 = append(rows2, fmt.Sprintf("((%s, %s, %d, %d), (%d, %d, %d))", leanBool(s2s), leanBool(inTLS), from, toCode, la.loc, la.dom, la.res))
+				}
+			}
+		}
+	}
+	table(sb, "negotiator.go: (s2s?, header inside TLS?, kind of 'from', index of the 'to') of the peer's stream header ↦ observable trace and outcome of a `NewSession` with only STARTTLS configured (own address user@d0 / d0, remote d1)",
+		"headerAddressProbe", "List ((Bool × Bool × Nat × Nat) × Option (List Ev × Outcome))", rows, perr)
+	table(sb, "negotiator.go: the same domain ↦ what `LocalAddr()` returns after the call (localpart, domain, resourcepart codes)",
+		"headerLocalProbe", "List ((Bool × Bool × Nat × Nat) × (Nat × Nat × Nat))", rows2, perr)
+}
+
+// ---- stream.Info / jid: a header parsed into a copy leaves the original alone --------------------
+
+var copyUniverse = []addr{{1, 0, 0}, {1, 1, 0}, {2, 0, 0}, {0, 0, 0}, {0, 1, 0}, {1, 4, 0}, {1, 0, 1}, {0, 4, 1}}
+
+func (c *ctx) probeInfoCopy(sb *strings.Builder) {
+	var rows []string
+	var perr error
+	sc := scenario{}
+	for _, a := range copyUniverse {
+		for _, b := range copyUniverse {
+			// the value a session (or its caller) holds, and the negotiator's shallow copy of it
+			held := stream.Info{To: jid.MustParse(sc.addrStr(a)), From: jid.MustParse(sc.addrStr(a))}
+			cp := held
+			start := xml.StartElement{Name: xml.Name{Space: "http://etherx.jabber.org/streams", Local: "stream"}, Attr: []xml.Attr{
+				{Name: xml.Name{Local: "to"}, Value: sc.addrStr(b)}, {Name: xml.Name{Local: "from"}, Value: sc.addrStr(b)}}}
+			if err := cp.FromStartElement(start); err != nil {
+				perr = err
+			}
+			code := func(j jid.JID) string {
+				var x addr
+				if _, err := fmt.Sscanf(sc.addrCode(j), "%d.%d.%d", &x.loc, &x.dom, &x.res); err != nil {
+					perr = fmt.Errorf("address %s outside the universe", j)
+				}
+				return leanAddr(x)
+			}
+			if !cp.To.Equal(cp.From) || !held.To.Equal(held.From) {
+				perr = fmt.Errorf("'to' and 'from' of one header parsed differently: %s %s / %s %s", cp.To, cp.From, held.To, held.From)
+			}
+			rows = append(rows, fmt.Sprintf("((%s, %s), (%s, %s))", leanAddr(a), leanAddr(b), code(cp.To), code(held.To)))
+		}
+	}
+	table(sb, "stream.Info.FromStartElement on a shallow copy of a stream info: (address held, address in the header) ↦ (what the copy holds afterwards, what the value it was copied from holds)",
+		"infoCopyProbe", "List ((Addr × Addr) × (Addr × Addr))", rows, perr)
+}
+
+// ---- sasl.go: the masks of the authentication feature for every set of mechanisms ----------------
+
+func (c *ctx) probeSASLMasks(sb *strings.Builder) {
+	var rows []string
+	var perr error
+	for set := 1; set < 1<<len(mechUniverse); set++ {
+		var ms []sasl.Mechanism
+		for k, m := range mechUniverse {
+			if set&(1<<k) != 0 {
+				ms = append(ms, m)
+			}
+		}
+		var f xmpp.StreamFeature
+		if p := common.Recover(func() { f = xmpp.SASL("", "secret", ms...) }); p != "" {
+			perr = fmt.Errorf("xmpp.SASL panicked: %s", p)
+		}
+		rows = append(rows, fmt.Sprintf("(%d, (%d, %d, %s))", set, uint8(f.Necessary), uint8(f.Prohibited), leanBool(f.Negotiate != nil)))
+	}
+	table(sb, "sasl.go: set of configured mechanisms (bit k = mechanism k of PLAIN, SCRAM-SHA-1, SCRAM-SHA-1-PLUS, SCRAM-SHA-256, SCRAM-SHA-256-PLUS) ↦ (Necessary, Prohibited, negotiable) of the value `xmpp.SASL` returns",
+		"saslMaskProbe", "List (Nat × (Nat × Nat × Bool))", rows, perr)
+}
+
 // probes runs every probe and returns the Lean text.
 func probes() (string, error) {
 	dir, err := os.MkdirTemp("", "c02facts")
@@ -382,5 +504,8 @@ func probes() (string, error) {
 	c.probeFirstList(&sb)
 	c.probeNegotiate(&sb)
 	c.probeServerName(&sb)
+	c.probeHeaderAddress(&sb)
+	c.probeInfoCopy(&sb)
+	c.probeSASLMasks(&sb)
 	return sb.String(), nil
 }
